@@ -3,6 +3,26 @@
 //! exhibits a failed obligation, so that a VIOLATION can carry a failing input.
 //! Every oracle prints one JSON object on stdout.
 mod refimpl;
+
+// Allocation tracking (C05: "requesting memory out of proportion to the input size"): the largest single request since the
+// last reset.  Pass-through to the system allocator otherwise.
+pub mod alloc_track {
+    use std::alloc::{GlobalAlloc, Layout, System};
+    use std::sync::atomic::{AtomicUsize, Ordering};
+    pub static MAX_REQ: AtomicUsize = AtomicUsize::new(0);
+    pub struct Tracking;
+    unsafe impl GlobalAlloc for Tracking {
+        unsafe fn alloc(&self, l: Layout) -> *mut u8 { MAX_REQ.fetch_max(l.size(), Ordering::Relaxed); unsafe { System.alloc(l) } }
+        unsafe fn dealloc(&self, p: *mut u8, l: Layout) { unsafe { System.dealloc(p, l) } }
+        unsafe fn alloc_zeroed(&self, l: Layout) -> *mut u8 { MAX_REQ.fetch_max(l.size(), Ordering::Relaxed); unsafe { System.alloc_zeroed(l) } }
+        unsafe fn realloc(&self, p: *mut u8, l: Layout, n: usize) -> *mut u8 { MAX_REQ.fetch_max(n, Ordering::Relaxed); unsafe { System.realloc(p, l, n) } }
+    }
+    pub fn reset() { MAX_REQ.store(0, Ordering::Relaxed); }
+    pub fn max() -> usize { MAX_REQ.load(Ordering::Relaxed) }
+}
+#[global_allocator]
+static ALLOC: alloc_track::Tracking = alloc_track::Tracking;
+
 mod oracles;
 mod storm_mod;
 
